@@ -2,7 +2,7 @@
    reader sugar, dotted identifiers, bracket strings and f-strings (enough for every
    printed value of C27; ModelRoundTrip.v extends it for C25). *)
 From HyV Require Import Print.Syntax Print.Names Print.Reader Print.ModelRepr Print.ReaderFacts
-     Print.StringFacts Print.AtomFacts.
+     Print.StringFacts Print.AtomFacts Print.SugarFacts.
 From Coq Require Import Lia.
 
 (* what the theorems assume about the numeric oracles *)
@@ -40,7 +40,22 @@ Inductive ok : model -> Prop :=
 | OkTuple ms : Forall ok ms -> ok (MNode KTuple ms)
 | OkSet ms : Forall ok ms -> ok (MNode KSet ms)
 | OkDict ms : Forall ok ms -> ok (MNode KDict ms)
-| OkExpr ms : expr_plain ms = true -> Forall ok ms -> ok (MNode KExpr ms).
+| OkExpr ms : expr_plain ms = true -> Forall ok ms -> ok (MNode KExpr ms)
+(* reader sugar: a two-element form whose head is a key of the syntax table *)
+| OkSugar name p x :
+    lookup_syntax name repr_syntax = Some p ->
+    (name = s_unquote -> is_sym x = true \/ N.eqb (hd 0 (mrepr W x)) c_at = false) ->
+    ok x -> ok (MNode KExpr [MSym name; x])
+(* a form printed as a dotted identifier: leading dots (then the second element is None) and dot-free parts *)
+| OkDotted dots parts :
+    forallb (N.eqb ch_dot) dots = true -> parts <> [] -> Forall (part_ok W) parts ->
+    (dots = [] -> (2 <= length parts)%nat /\ hd [] parts <> s_None /\ dispatch (hd 0 (hd [] parts)) = DDefault) ->
+    num W (dots ++ join_dot parts) = NotNum ->
+    ok (MNode KExpr (match dots with
+                     | [] => MSym [ch_dot] :: map MSym parts
+                     | _ :: _ => MSym dots :: MSym s_None :: map MSym parts
+                     end))
+| OkBracket d s : bracket_ok d s -> ok (MStr s (Some d)).
 
 Notation item := (item_ok W (mrepr W)).
 
@@ -162,6 +177,67 @@ Proof.
   rewrite skip_ws_nonws by reflexivity. change (dispatch c_lc) with (DOpen KDict c_rc). cbv iota. rewrite H. reflexivity.
 Qed.
 
+(* ---------------------------------------------------------------- dotted identifiers *)
+Lemma forallb_is_sym l : forallb is_sym (map MSym l) = true.
+Proof. induction l; [reflexivity|exact IHl]. Qed.
+
+Lemma map_mrepr_syms l : map (mrepr W) (map MSym l) = l.
+Proof. induction l as [|x l IH]; [reflexivity|]. cbn [map mrepr]. rewrite IH. reflexivity. Qed.
+
+Definition dotted_model (dots : text) (parts : list text) : list model :=
+  match dots with
+  | [] => MSym [ch_dot] :: map MSym parts
+  | _ => MSym dots :: MSym s_None :: map MSym parts
+  end.
+
+Lemma dotted_repr dots parts :
+  forallb (N.eqb ch_dot) dots = true -> parts <> [] ->
+  (dots = [] -> (2 <= length parts)%nat /\ hd [] parts <> s_None) ->
+  mrepr W (MNode KExpr (dotted_model dots parts)) = dots ++ join_dot parts.
+Proof.
+  intros Hd Hne H0. cbn [mrepr node_repr]. unfold expr_repr, dotted_model. destruct dots as [|d ds].
+  - destruct (H0 eq_refl) as [Hlen Hp]. destruct parts as [|p1 [|p2 r]]; cbn [length] in Hlen; try lia.
+    cbn [hd] in Hp.
+    assert (Ed : expr_dotted (MSym [ch_dot] :: map MSym (p1 :: p2 :: r)) = true).
+    { unfold expr_dotted. cbn [map length nth]. cbn [Nat.leb]. cbn [forallb is_sym]. rewrite forallb_is_sym. reflexivity. }
+    rewrite Ed. cbn [map nth sym_is].
+    replace (text_eqb p1 s_None) with false
+      by (symmetry; apply not_true_iff_false; intros E; apply text_eqb_eq in E; contradiction).
+    cbn [mrepr skipn app]. fold (map (mrepr W) (map MSym r)). rewrite map_mrepr_syms.
+    change (p1 :: p2 :: r) with (p1 :: p2 :: r). rewrite <- join_dot_intersperse. reflexivity.
+  - assert (Ed : expr_dotted (MSym (d :: ds) :: MSym s_None :: map MSym parts) = true).
+    { unfold expr_dotted. destruct parts as [|p1 r]; [congruence|]. cbn [map length nth Nat.leb forallb is_sym].
+      rewrite forallb_is_sym. cbn [sym_is sym_text andb]. change (text_eqb s_None s_None) with true.
+      unfold all_dots_text. rewrite Hd. apply orb_true_r. }
+    rewrite Ed. cbn [map nth sym_is sym_text]. change (text_eqb s_None s_None) with true. cbv iota.
+    cbn [mrepr skipn]. rewrite map_mrepr_syms, <- join_dot_intersperse. reflexivity.
+Qed.
+
+Lemma join_dot_ident parts : Forall (part_ok W) parts -> forallb ident_char (join_dot parts) = true.
+Proof.
+  induction 1 as [|p parts (_ & Hp & _) _ IH]; [reflexivity|]. destruct parts as [|q parts]; [exact Hp|].
+  change (join_dot (p :: q :: parts)) with (p ++ ch_dot :: join_dot (q :: parts)).
+  rewrite forallb_app, Hp. cbn [forallb]. rewrite IH. reflexivity.
+Qed.
+
+Lemma dotted_token dots parts :
+  forallb (N.eqb ch_dot) dots = true -> parts <> [] -> Forall (part_ok W) parts ->
+  (dots = [] -> dispatch (hd 0 (hd [] parts)) = DDefault) ->
+  token_ok (dots ++ join_dot parts).
+Proof.
+  intros Hd Hne HF H0.
+  assert (Hid : forallb ident_char (dots ++ join_dot parts) = true).
+  { rewrite forallb_app, join_dot_ident by exact HF. rewrite andb_true_r.
+    clear - Hd. induction dots as [|c dots IH]; [reflexivity|]. cbn [forallb] in *. apply andb_prop in Hd as [Hc Hd].
+    apply N.eqb_eq in Hc. subst c. rewrite IH by exact Hd. reflexivity. }
+  destruct dots as [|d ds].
+  - specialize (H0 eq_refl). destruct parts as [|p r]; [congruence|]. inversion HF as [|? ? (Hp & _) _]; subst.
+    destruct p as [|c p]; [congruence|]. cbn [app hd] in *.
+    destruct r; (split; [exact Hid|exact H0]).
+  - cbn [app] in *. cbn [forallb] in Hd. apply andb_prop in Hd as [Hc _]. apply N.eqb_eq in Hc. subst d.
+    split; [exact Hid|reflexivity].
+Qed.
+
 (* ---------------------------------------------------------------- the induction *)
 Lemma Forall_item ms : Forall ok ms -> Forall (fun m => ok m -> item m) ms -> Forall item ms.
 Proof.
@@ -192,6 +268,9 @@ Proof.
     cbn [mrepr]. pose proof (hy_str_eq W s) as E.
     apply (item_of_form _ c_dq (flat_map (hy_esc W (py_quote s)) s ++ [c_dq])); try exact E; try reflexivity.
     intros rec rest Hr. apply read_hy_str; assumption.
+  - (* bracket string *)
+    apply (item_of_form _ c_hash (c_lb :: d ++ [c_lb] ++ s ++ [c_rb] ++ d ++ [c_rb])); try reflexivity.
+    intros rec rest Hr. apply read_bracket_string; assumption.
   - (* bytes *)
     pose proof (hy_bytes_eq b) as E.
     apply (item_of_form _ 98 (c_dq :: flat_map (hy_esc_b (py_quote b)) b ++ [c_dq])); try exact E; try reflexivity.
@@ -223,6 +302,54 @@ Proof.
     split; [exists c_lp, (cat (map (mrepr W) ms) ++ [c_rp]); repeat split; exact E|].
     intros rest Hr. rewrite E. rewrite <- !app_assoc. cbn [app].
     apply (read_open_seq KExpr c_rp c_lp); [reflexivity|reflexivity|reflexivity|exact HF].
+  - (* reader sugar *)
+    inversion IH as [|? ? IHn IH1]; subst. inversion IH1 as [|? ? IHx _]; subst.
+    match goal with H : ok x |- _ => pose proof (IHx H) as Hx end.
+    destruct Hx as [(c & t & Ex & Hc1 & Hc2) Hrd].
+    assert (Hone : forall rest, delim_start rest -> reads W RdOne (mrepr W x ++ rest) (ROne x rest)).
+    { intros rest Hr. apply reads_one_of_form, Hrd, Hr. }
+    assert (Erepr : mrepr W (MNode KExpr [MSym name; x])
+                    = if sym_is (MSym name) s_unquote && is_sym x && starts_with [c_at] (sym_text x)
+                      then [c_tilde; ch_space] ++ mrepr W x else p ++ mrepr W x).
+    { cbn [mrepr node_repr map]. unfold expr_repr. change (expr_dotted [MSym name; x]) with false. cbv iota.
+      unfold expr_sugar. cbn [length Nat.eqb nth is_sym sym_text andb].
+      match goal with H : lookup_syntax name _ = _ |- _ => rewrite H end. reflexivity. }
+    match goal with H : lookup_syntax name _ = _ |- _ => pose proof (lookup_syntax_cases _ _ H) as Hcases end.
+    destruct Hcases as [[-> ->]|[[-> ->]|[[-> ->]|[[-> ->]|[[-> ->]|[-> ->]]]]]].
+    + split; [exists c_sq, (mrepr W x); repeat split; exact Erepr|]. intros rest Hr. rewrite Erepr. cbn [app].
+      apply (read_tag W c_sq s_quote); [reflexivity|reflexivity|apply Hone; exact Hr].
+    + split; [exists c_bq, (mrepr W x); repeat split; exact Erepr|]. intros rest Hr. rewrite Erepr. cbn [app].
+      apply (read_tag W c_bq s_quasiquote); [reflexivity|reflexivity|apply Hone; exact Hr].
+    + (* unquote *)
+      change (sym_is (MSym s_unquote) s_unquote) with true in Erepr. cbn [andb] in Erepr.
+      destruct (is_sym x && starts_with [c_at] (sym_text x)) eqn:Eat.
+      * split; [exists c_tilde, (ch_space :: mrepr W x); repeat split; exact Erepr|]. intros rest Hr. rewrite Erepr.
+        cbn [app]. apply read_unquote; [reflexivity|].
+        change (ch_space :: mrepr W x ++ rest) with ([ch_space] ++ mrepr W x ++ rest).
+        apply reads_one_ws; [reflexivity|apply Hone; exact Hr].
+      * split; [exists c_tilde, (mrepr W x); repeat split; exact Erepr|]. intros rest Hr. rewrite Erepr. cbn [app].
+        apply read_unquote; [|apply Hone; exact Hr]. rewrite Ex. cbn [app].
+        match goal with H : s_unquote = s_unquote -> _ |- _ => destruct (H eq_refl) as [Hs|Hh] end.
+        { rewrite Hs in Eat. cbn [andb] in Eat. destruct x; try discriminate. cbn [sym_text mrepr] in *. subst s.
+          cbn [starts_with] in Eat. rewrite N.eqb_sym. destruct (N.eqb c_at c); [discriminate|reflexivity]. }
+        { rewrite Ex in Hh. exact Hh. }
+    + split; [exists c_tilde, (c_at :: mrepr W x); repeat split; exact Erepr|]. intros rest Hr. rewrite Erepr. cbn [app].
+      apply read_unquote_splice. apply Hone; exact Hr.
+    + split; [exists c_hash, (c_star :: ch_space :: mrepr W x); repeat split; exact Erepr|]. intros rest Hr. rewrite Erepr.
+      cbn [app]. apply (read_unpack W [c_star] s_unpack_iterable); [left; reflexivity|reflexivity|apply Hone; exact Hr].
+    + split; [exists c_hash, (c_star :: c_star :: ch_space :: mrepr W x); repeat split; exact Erepr|]. intros rest Hr. rewrite Erepr.
+      cbn [app]. apply (read_unpack W [c_star; c_star] s_unpack_mapping); [right; reflexivity|reflexivity|apply Hone; exact Hr].
+  - (* dotted identifier *)
+    match goal with H : dots = [] -> _ |- _ => rename H into H0 end.
+    change (item (MNode KExpr (dotted_model dots parts))).
+    assert (Er : mrepr W (MNode KExpr (dotted_model dots parts)) = dots ++ join_dot parts).
+    { apply dotted_repr; try assumption. intros E. destruct (H0 E) as (A & B & _). split; assumption. }
+    assert (Ht : token_ok (dots ++ join_dot parts)).
+    { apply dotted_token; try assumption. intros E. destruct (H0 E) as (_ & _ & C). exact C. }
+    destruct (token_head _ Ht) as (c & r & E & Hw1 & Hw2).
+    apply (item_of_form _ c r); [congruence|exact Hw1|exact Hw2|].
+    intros rec rest Hr. rewrite Er, read_token by assumption.
+    rewrite dotted_read; try assumption; [reflexivity|]. intros E0. destruct (H0 E0) as (A & _). exact A.
 Qed.
 
 (* hy.read on the printed text *)
